@@ -613,7 +613,14 @@ def _any(ex, st, self_v, args, kwargs, node):
                 st.locals = saved
             return R1(ex, st, SBool(Or(*terms) if is_any else And(*terms)))
         # symbolic: quantify over the index
-        if isinstance(itv, SStr) and not itv.is_str:
+        rng = None
+        if isinstance(itv, SStr) and not itv.is_str and itv.single_win() is not None:
+            # quantify over ABSOLUTE stream positions (trigger base[p]) rather than offsets: E-matching friendly
+            w = itv.single_win()
+            length = None
+            elem = lambda j: SInt(w.char_at(j))
+            rng = lambda j: And(w.lo <= j, j < w.hi)
+        elif isinstance(itv, SStr) and not itv.is_str:
             length = itv.length()
             elem = lambda j: SInt(itv.char(j))
         else:
@@ -631,8 +638,8 @@ def _any(ex, st, self_v, args, kwargs, node):
             raise Unsupported("any/all element expression forks or adds facts")
         body = ex.truth(r2[0].v, st)
         st.locals = saved
-        rng = And(0 <= j, j < length)
-        t = z3.Exists([j], And(rng, body)) if is_any else z3.ForAll([j], Implies(rng, body))
+        rg = rng(j) if rng is not None else And(0 <= j, j < length)
+        t = z3.Exists([j], And(rg, body)) if is_any else z3.ForAll([j], Implies(rg, body))
         return R1(ex, st, SBool(t))
     items = ex.concrete_items(st, g)
     if items is not None:
